@@ -161,6 +161,22 @@ func (c *Ctx) c08Enforcer(pm *pairModel) {
 		if maxParam != nil && v == maxParam {
 			return true
 		}
+		// handed on as a parameter to the helper that holds the eviction loop
+		for w, i := v, 0; maxParam != nil && i < 4; i++ {
+			prm, ok := w.(*ssa.Parameter)
+			if !ok || prm.Parent().Parent() != nil {
+				break
+			}
+			sites := p.StaticCallSites(prm.Parent())
+			pi := eng.ParamIndex(prm)
+			if len(sites) != 1 || pi < 0 || pi >= len(sites[0].Args) {
+				break
+			}
+			w = eng.StripConv(sites[0].Args[pi])
+			if w == maxParam {
+				return true
+			}
+		}
 		// the parameter captured by a closure of the enforcer
 		if ad := eng.LoadAddr(v); ad != nil && maxParam != nil {
 			if cell := eng.CellOf(ad); cell != nil {
